@@ -455,9 +455,16 @@ def r_proj_comment(cx):
     Where parse_proj looks for the comment sign (split / find / split_once) the pattern is the bare `#`, not the sign with
     some context (` #`), which would leave `+zone=32# remark` and tab-aligned comments in the text."""
     n = 0
-    for name in sorted(cx.f.lib["fns"]):
-        if not name.startswith(PARSE):
-            continue
+    scope = [x for x in sorted(cx.f.lib["fns"]) if x.startswith(PARSE)]
+    # private helpers of the token module that parse_proj hands its text to (a shared comment stripper, say)
+    for name in list(scope):
+        f = cx.f.fn(name)
+        for bb, t in f.calls():
+            c = f.callee(t) or ""
+            if c.startswith("token::") and not c.startswith(PARSE) and cx.f.has_fn(c) and c not in scope and \
+                    c not in ("token::tidy_proj",):
+                scope += [x for x in sorted(cx.f.lib["fns"]) if x == c or x.startswith(c + "::{closure")]
+    for name in scope:
         f = cx.f.fn(name)
         for bb, t in f.calls():
             tail = (f.callee(t) or "").rsplit("::", 1)[-1]
@@ -632,3 +639,47 @@ def r_proj_globals_kept(cx):
                   "`inv`: flag-valued globals such as `+south` or `+exact` never reach the steps" % mir.show(rt, maxd=3)[:50],
                   cx.where(t["span"]))
     cx.count("R-PROJ-GLOBALS-KEPT", "filters", n)
+
+
+@rule("R-PROJ-LINE-SEPARATED", ["C17"])
+def r_proj_line_separated(cx):
+    """A multi-line PROJ definition is one definition: parse_proj joins its lines, and a line break separates two tokens
+    as a blank does. Where the loop over the lines appends the text of a line to an accumulator string, the same pass also
+    appends white space to it - otherwise the last parameter of a line and the first of the next are glued into one word
+    (`+zone=32\\n+ellps=GRS80` -> `zone=32ellps=GRS80`). (A `join(" ")` over collected lines has no such loop.)"""
+    n = 0
+    for name in sorted(cx.f.lib["fns"]):
+        if not name.startswith(PARSE) or "{closure" in name:
+            continue
+        f = cx.f.fn(name)
+        for lp in f.loops():
+            if "str::Lines" not in f.term(lp.header).get("callee_full", ""):
+                continue
+            content, blank = [], []
+            for bb in sorted(lp.body):
+                t = f.term(bb)
+                if t["k"] != "call":
+                    continue
+                tail = (f.callee(t) or "").rsplit("::", 1)[-1]
+                if tail not in ("add_assign", "push_str", "push") or "String" not in (f.callee(t) or ""):
+                    continue
+                a = f.arg_terms(bb)
+                if len(a) < 2:
+                    continue
+                v = mir.strip_refs(a[1])
+                if v[0] == "const" and isinstance(v[2], tuple) and v[2][0] in ("str", "char"):
+                    if str(v[2][1]) and str(v[2][1]).isspace():
+                        blank.append(bb)
+                else:
+                    content.append(bb)
+            if not content:
+                continue
+            n += 1
+            ok = bool(blank)
+            cx.ob("R-PROJ-LINE-SEPARATED", "%s/lines%d" % (name, n - 1), ok,
+                  "the lines of a PROJ definition are joined with white space between them" if ok else
+                  "parse_proj joins the lines of a definition without a separator: the last word of a line and the first of "
+                  "the next become one token", cx.where(f.term(content[0])["span"]))
+    if n == 0:
+        cx.ob("R-PROJ-LINE-SEPARATED", "no-append-loop", True, "parse_proj does not join lines by appending in a loop", nontrivial=False)
+    cx.count("R-PROJ-LINE-SEPARATED", "functions", 1 if cx.f.has_fn(PARSE) else 0)
